@@ -233,6 +233,17 @@ func c14Run(c *C) {
 			return
 		}
 	}
+	// a failing writer under the unbuffered variant: the property does not require the error to be reported,
+	// but the call must return (no panic: recovered by the worker and reported) and whatever was accepted is a prefix
+	for j := 1; j <= good[3].writes && j <= 40; j++ {
+		w := &recWriter{failAt: j, err: writerErr}
+		r, _ := c14Exec(p, 3, 0, w)
+		c.Eval(1)
+		if !strings.HasPrefix(F, r.out) {
+			c.Fail("writer-received-foreign-bytes", D{"files": p.files, "entry": "ExecuteWriterUnbuffered", "writer_fails_at_write": j, "accepted": q(truncStr(r.out, 300))})
+			return
+		}
+	}
 	// a writer that fails only after the k-th successful execution error (mixed)
 	var sink bytes.Buffer
 	_ = sink
